@@ -166,6 +166,76 @@ pub fn dup_stream(rng: &mut Rng, n: u64, id: &mut u64, out: &mut Out) {
     }
 }
 
+/// long child lists (a writer that batches or buffers its children shows only past its batch size):
+/// every form with 65, 130 and (thorough) 1000 small children
+pub fn many_children(rng: &mut Rng, thorough: bool, id: &mut u64, out: &mut Out) {
+    let g = Gen { values: true, huge_ints: false };
+    let sizes: Vec<usize> = if thorough { vec![33, 65, 130, 257, 1000] } else { vec![65, 130] };
+    for (j, n) in sizes.into_iter().enumerate() {
+        for form in 0..5 {
+            *id += 1;
+            let trees: Vec<Scad> = (0..n).map(|i| { translate!([i as f64, j as f64, form as f64], cube!(1.0);) }).collect();
+            let setting = match form {
+                0 => G::None,
+                1 => G::Fa(g.num(rng)),
+                2 => G::Fs(g.num(rng)),
+                3 => G::FaFs(g.num(rng), g.num(rng)),
+                _ => G::Fn(g.int(rng)),
+            };
+            let (q, r) = run_file_many(setting, trees, rng.below(4), *id);
+            out.case(q, r);
+        }
+    }
+}
+
+/// like `run_file`, for child lists longer than the macro call sites spelled out there: the macro is
+/// invoked with a repetition generated by a helper macro
+fn run_file_many(g: G, trees: Vec<Scad>, pre: u64, id: u64) -> (String, Res) {
+    let gt = match &g {
+        G::None => "gnone".to_string(),
+        G::Fa(a) => format!("gfa {}", tn(*a)),
+        G::Fs(s) => format!("gfs {}", tn(*s)),
+        G::FaFs(a, s) => format!("gfafs {} {}", tn(*a), tn(*s)),
+        G::Fn(n) => format!("gfn {}", tu(*n)),
+    };
+    let req = format!("file {} {}", gt, dump_all(&trees));
+    let mut r = Res::new();
+    let path = tmp_path(&format!("c13_many_{}.scad", id));
+    prefill(&path, pre);
+    let fmt: String = {
+        let ts2 = trees.clone();
+        guard(move || {
+            let mut s = String::new();
+            for t in &ts2 {
+                s.push_str(&format!("{}", t));
+            }
+            ts(&s)
+        })
+    };
+    let p2 = path.clone();
+    let n = trees.len();
+    let status = std::panic::catch_unwind(move || {
+        let mut it = trees.into_iter();
+        crate::gen_many::many_dispatch(n, g, &mut it, p2.clone());
+    });
+    match status {
+        Ok(()) => match std::fs::read(&path) {
+            Ok(bytes) => {
+                r.g("bytes", ts(&String::from_utf8_lossy(&bytes)));
+            }
+            Err(_) => {
+                r.g("bytes", "PANIC".into());
+            }
+        },
+        Err(_) => {
+            r.g("bytes", "PANIC".into());
+        }
+    }
+    r.g("format", fmt);
+    let _ = std::fs::remove_file(&path);
+    (req, r)
+}
+
 pub fn generate(rng: &mut Rng, thorough: bool, out: &mut Out) {
     let g = Gen { values: true, huge_ints: false };
     let n = if thorough { 1500 } else { 400 };
@@ -194,6 +264,7 @@ pub fn generate(rng: &mut Rng, thorough: bool, out: &mut Out) {
         out.case(q, r);
     }
     dup_stream(rng, if thorough { 200 } else { 40 }, &mut id, out);
+    many_children(rng, thorough, &mut id, out);
     // deep chains that need the enlarged stack of the saving thread
     let depths: Vec<usize> = if thorough { vec![2000, 20000] } else { vec![2000] };
     for d in depths {
